@@ -25,7 +25,7 @@ def target_range(ty):
     return 0, (1 << b) - 1
 
 
-def lossy_user_casts(fx, fns, build_zone, type_of_operand):
+def lossy_user_casts(fx, fns, build_zone, type_of_operand, is_user=None):
     """[(fn, from, to, at, exact?, why)] for narrowing / sign-changing casts of user integers in the given functions"""
     out = []
     for fn in sorted(fns):
@@ -41,7 +41,7 @@ def lossy_user_casts(fx, fns, build_zone, type_of_operand):
                 if not lossy:
                     continue
                 e = f.expr_of_operand(st['rv']['o'])
-                if not user_int(e):
+                if not (is_user or user_int)(e):
                     continue
                 lo, hi = target_range(to)
                 z, gtxt = build_zone(f, bb, [e])
